@@ -57,7 +57,8 @@ ASSUMPTIONS = [
     "domain of C10_h_roundtrip = graphs without explicit H; of C10_h_total_implicit = h_dom (every explicit H has hcount 0 and at most one "
     "heavy neighbour); outside these domains the clauses fail and the proof files carry the witnesses (bridging H, H with hcount, H already explicit)",
     "hcount and aromaticity are not carried by GML (stated in C10_gml_roundtrip: gml_node); stereo and isotope labels are not carried by the graph layer",
-    "explicit_hydrogen=True exports are covered by the correspondence and the oracle only (no theorem)",
+    "explicit_hydrogen=True exports: theorem for graphs without implicit hydrogens (hc_free: every core export); with implicit "
+    "hydrogens the export adds hydrogen atoms on purpose: correspondence and oracle only",
 ]
 TESTED_NOT_PROVED = [
     "SMILES -> graph -> SMILES equals RDKit's canonical SMILES up to stereo: the RDKit half (parse, sanitise, aromaticity perception, write) "
@@ -66,10 +67,10 @@ TESTED_NOT_PROVED = [
     "(graph-level statements are proved: C10_h_total_*, C10_h_explicit_skeleton, C10_h_implicit_skeleton, C10_h_roundtrip)",
     "GML text rendering and the line tokenisation of GMLToNX.transform (glue): correspondence only, through an independent tokenizer",
     "smart_to_gml's RDKit half (rsmi_to_graph): the adapter feeds its output to the model",
-    "explicit_hydrogen=True GML exports; core=False (full) exports on ITS graphs outside its_ok; h_to_explicit with a node subset / its=True "
-    "beyond the total count: correspondence + oracle only",
+    "explicit_hydrogen=True exports of graphs with implicit hydrogens; core=False (full) exports on ITS graphs outside its_ok; h_to_explicit "
+    "with a node subset / its=True beyond the total count: correspondence + oracle only",
 ]
-LEVEL_TEXT = ("Machine-checked proof (Coq, 15 theorems, closed under the global context) over an executable model of the GML writer/reader at "
+LEVEL_TEXT = ("Machine-checked proof (Coq, 16 theorems, closed under the global context) over an executable model of the GML writer/reader at "
               "record level, of its_to_gml / gml_to_its / smart_to_gml / get_rc / its_decompose / ITSGraph at graph level, of h_to_explicit / "
               "h_to_implicit, and of the attribute copying of MolToGraph / GraphToMol: label round trip for every element symbol and every "
               "charge; ITS -> GML -> ITS restores atoms, both-side charges and (before, after) orders for every reaction-centre-shaped ITS, "
@@ -492,8 +493,9 @@ def impl(case):
             c = get_rc(I) if core else I
             r, p = its_decompose(c)
             text = its_to_gml(to_nx(case["its"]), core=core, reindex=reindex, explicit_hydrogen=eh)
-            out.append([[[gr_ord_obs(c), gr_ord_obs(r), gr_ord_obs(p), rec_obs(text_to_rec(text)), parsed_obs(text)], _py_its_ok(c)],
-                        True, all(d.get("typesGH") is not None for _, d in I.nodes(data=True))])
+            out.append([[[[gr_ord_obs(c), gr_ord_obs(r), gr_ord_obs(p), rec_obs(text_to_rec(text)), parsed_obs(text)], _py_its_ok(c)],
+                        True, all(d.get("typesGH") is not None for _, d in I.nodes(data=True))],
+                       all((d.get("hcount", 0) or 0) <= 0 for _, d in c.nodes(data=True))])
         return out
     if k == "smart":
         from synkit.IO.chem_converter import smart_to_gml
@@ -540,7 +542,7 @@ def coq_case(case):
                                                             cbool(a), cbool(b)) for a, b in case["cfgs"]])
         if k == "its":
             g = enc_gr(case["its"])
-            return "(let g := %s in %s)" % (g, clistL(["run_its3 g %s %s %s" % (cbool(a), cbool(b), cbool(c))
+            return "(let g := %s in %s)" % (g, clistL(["run_its4 g %s %s %s" % (cbool(a), cbool(b), cbool(c))
                                                         for a, b, c in case["cfgs"]]))
         if k == "smart":
             x = rxn_graphs(case["rsmi"])
@@ -863,7 +865,7 @@ def oracle(case):
 
 def _rec_of(k, o):
     """the GML record inside one per-configuration observable"""
-    return o[0][0][-2] if k == "its" else o[0][-2]
+    return o[0][0][0][-2] if k == "its" else o[0][-2]
 
 
 def nontrivial(case, obs):
@@ -934,7 +936,10 @@ def distribution(cases, obss):
                         key = "smart_roundtrip_domain:" + str(bool(oo[1] and oo[2] and oo[3] and oo[4]))
                         d["cfg_counts"][key] = d["cfg_counts"].get(key, 0) + 1
                     if k == "its":
-                        d["its_ok_exports"][str(bool(oo[0][1]))] = d["its_ok_exports"].get(str(bool(oo[0][1])), 0) + 1
+                        d["its_ok_exports"][str(bool(oo[0][0][1]))] = d["its_ok_exports"].get(str(bool(oo[0][0][1])), 0) + 1
+                        if c["cfgs"][o.index(oo)][2]:
+                            key = "explicit_h_theorem_domain:" + str(bool(oo[0][0][1] and oo[1]))
+                            d["cfg_counts"][key] = d["cfg_counts"].get(key, 0) + 1
                     if len(rec) == 3:
                         ids = {e[1] for s in rec for e in s[1] if e[0] == 0}
                         b = str(min(len(ids), 12))
